@@ -85,3 +85,4 @@ R.contract(
 )
 R.contracts[CTX_ + "Statistic.on_scenario_finished"].effects = {"recorded": "ghost('recorded') + 1"}
 R.contracts[CTX_ + "Statistic.on_scenario_finished"].requires_are_representation_invariant = True
+R.contracts[CTX_ + "Statistic.on_scenario_finished"].call_ensures = {}  # (on_event only needs to know that the scenario was handed over)
